@@ -43,7 +43,7 @@ BASELINE = [
     ("E-param", "starfileio.Starfile.write", "param:frames", "starfileio.Starfile.write", "setitem:*",
      "replaces each table in the caller's list by its copy rounded to float_precision before formatting: the list afterwards holds "
      "what the file holds (equal within the precision a STAR file carries); the tables themselves are not modified"),
-    ("E-param", "starfileio.Token.*", "param:tokens", "starfileio.Token.consume", "call:.pop", R_TOKENS),
+    ("E-param", "starfileio.Token.*", "param:tokens", "starfileio.Token.*", "call:.pop", R_TOKENS),  # whichever method of the cursor class holds the pop
 ]
 
 
@@ -55,7 +55,7 @@ def match(item):
     k = (item["kind"], item["fn"], item["root"], item["src"], same_op.get(item["op"], item["op"]))
     for b in BASELINE:
         if b[0] == k[0] and fnmatch.fnmatchcase(k[1], b[1]) and fnmatch.fnmatchcase(k[2], b[2]) and b[4] == k[4] \
-                and (b[3] == k[3] or (b[3] == b[1] and k[0] == "E-param" and "*" not in b[1])):
+                and (b[3] == k[3] or ("*" in b[3] and fnmatch.fnmatchcase(k[3], b[3])) or (b[3] == b[1] and k[0] == "E-param" and "*" not in b[1])):
             # the same write of the same argument of the same entry function: confirmed harmless where it stands today, and no different when
             # the statement moves into a private helper the entry function calls (the effect is identified by entry, argument and kind of
             # write, not by the function whose body holds the statement)
